@@ -99,6 +99,11 @@ def gen(ctx):
             for me in ("a", None):
                 out.append({"D": 100, "me": me, "params": shape, "has_cb": has_cb,
                             "arrivals": [(10, ("prog", True, 3)), (20, ("res", ("me",), 4))]})
+    # the same instant, the other order: arrivals exactly on a poll boundary delivered just BEFORE the poll's deadline fires
+    for s in [dict(x) for x in out if x["arrivals"] and len(x["arrivals"]) <= 2
+              and any(t > 0 and t % 50 == 0 for t, _m in x["arrivals"])]:
+        s["feeder_first"] = True
+        out.append(s)
     for s in out:
         s.setdefault("has_cb", any(m[0] == "prog" for _t, m in s["arrivals"]) and rng.random() < 0.7)
         s.setdefault("cancel", None)
